@@ -7,7 +7,7 @@ the construct); the `path:line:col:` prefix of the first diagnostic must be the 
 the generator put the offending construct, and the snippet must show that source line."""
 import re
 
-from .. import build, impl, planted, report
+from .. import build, coqcheck, impl, model, planted, report, sexp
 
 SHELLS = planted.SHELLS
 
@@ -19,8 +19,12 @@ MANIFEST = dict(
           'and per shell, unknown shell, non-command specialisation, spaces inside a word, placeholder not last, undefined, '
           'unused, unused specialisation) x random layout (comments, blank lines, form feeds, multi-line statements, escaped '
           'literals before the construct) x 4 shells: the line:column of the diagnostic must equal the position the generator '
-          'computed from the text, and the snippet must quote that source line.'),
+          'computed from the text, and the snippet must quote that source line. End to end (Props/C13b.v): for every input text, every '
+          'span in an error of Driver.compile or in a warning starts at a byte of the text, at a construct of the right kind, and '
+          'Model/Diag.v (which messages, header, quoted line, underlined columns; tied to the stderr of the binary exactly) never panics.'),
     design='6 C13',
+    # Props/C13b.v: C13_pipeline_positions / _error_provenance / _warning_provenance / _unbounded_provenance,
+    # C13_render_total, C13_render_shows_construct (Model/Diag.v tied to the binary's stderr by render_tie)
     technique='Coq provenance theorems on the checker model (+ parser span round trip) + position judgement of the real binary on planted diagnostics')
 
 # kinds with a located first diagnostic and a marker
@@ -62,6 +66,12 @@ def snippet_ok(stderr, line, source_line):
 def run(ctx, res):
     with build.Lock():
         binary = build.complgen()
+        # the end-to-end theorems (positions, provenance, rendering) live in Props/C13b.v
+        extra = coqcheck.check_property('C13b')
+    if not extra['ok']:
+        res.violations.append(report.Violation('proof obligations of C13b (C13 end to end) no longer check',
+                                               dict(kind='proof-obligation', errors=extra['errors'][:5]), found_input=False))
+    res.extra['theorems_C13b'] = extra['theorems']
     r = ctx['rng']
     n = 12 if ctx['tier'] == 'quick' else 800
     cases = []
@@ -145,6 +155,107 @@ def run(ctx, res):
     res.nontrivial = len(nontriv)
     res.traces_validated = res.evaluations
     res.extra['cases_per_kind'] = per
+    render_tie(res, meta, bins)
+
+
+# ---- tie of Model/Diag.v (what main.rs prints for a located message) to the real binary --------------------
+BLOCK = re.compile(rb'^(?P<path>[^\n:]*):(?P<line>\d+):(?P<col>\d+):(?P<kind>error|warning)(?:: (?P<label>[^\n]*))?\n'
+                   rb'(?P<gut> *)\|\n'
+                   rb' *(?P<no>\d+) \| (?P<src>[^\n]*)\n'
+                   rb' *\| (?P<pad> *)(?P<marks>[\^-]+)(?: (?P<what>[^\n]*))?\n'
+                   rb' *\|\n'
+                   rb'(?: *= help: (?P<help>[^\n]*)\n)?', re.M)
+
+
+def stderr_blocks(stderr):
+    out = []
+    for m in BLOCK.finditer(stderr):
+        d = {k: (v.decode('latin-1') if v is not None else None) for k, v in m.groupdict().items()}
+        out.append(dict(header='%s:%s:%s:' % (d['path'], d['line'], d['col']), warning=d['kind'] == 'warning',
+                        label=d['label'] or '', no=int(d['no']), src=d['src'], start=len(d['pad']), width=len(d['marks']),
+                        what=d['what'] or '', help=d['help'], path=d['path']))
+    return out
+
+
+def payload_of(st):
+    """what the pipeline reports for this run, from cg-dump's stages (the Rust library's own values)"""
+    pa = st.get('PARSE', '')
+    if pa.startswith('(err (ParseError'):
+        return '(parse %s)' % pa[len('(err (ParseError '):-2]
+    ch = st.get('CHECK', '')
+    if ch.startswith('(err '):
+        return '(check %s)' % ch[len('(err '):-1]
+    rx = st.get('REGEX', '')
+    if rx.startswith('(err (UnboundedMatchable'):
+        return '(regex %s)' % rx[len('(err '):-1]
+    if ch.startswith('(ok ') and rx.startswith('(ok '):
+        v = sexp.parse(ch)
+        return '(warnings %s %s %s)' % (sexp.dump(v[3]), sexp.dump(v[4]), sexp.dump(v[5]))
+    return None
+
+
+def render_tie(res, meta, bins):
+    """Model/Diag.v (error_messages / warning_messages / render) == the located messages the binary prints:
+    header, label, quoted source line, underlined columns, annotation and help text, in order."""
+    with build.Lock():
+        exe = build.harness()
+    by_shell = {}
+    for k, m in enumerate(meta):
+        by_shell.setdefault(m['shell'], []).append(k)
+    stages = {}
+    for sh, ks in by_shell.items():
+        dumps = impl.dump(exe, [meta[k]['text'] for k in ks], ['parse', 'check', 'regex'], [sh])
+        for k, d in zip(ks, dumps):
+            stages[k] = d[sh]
+    reqs, idx = [], []
+    for k, (m, b) in enumerate(zip(meta, bins)):
+        blocks = stderr_blocks(b['stderr'])
+        pl = payload_of(stages.get(k, {}))
+        if pl is None or 'CRASH' in stages.get(k, {}) or 'PANIC' in stages.get(k, {}):
+            continue
+        path = blocks[0]['path'] if blocks else 'g.usage'
+        reqs.append('diag %s %s %s' % (sexp.quote(path), sexp.quote(m['text'].decode('latin-1')), pl))
+        idx.append((k, blocks))
+    outs = model.run(reqs)
+    tied = 0
+    for (k, blocks), o, rq in zip(idx, outs, reqs):
+        m = meta[k]
+        try:
+            msgs = sexp.parse(o)
+        except ValueError:
+            msgs = None
+        problems = []
+        if msgs is None or (msgs and msgs[0] == 'drivererror'):
+            problems.append('model: ' + o[:200])
+        elif len(msgs) != len(blocks):
+            problems.append('%d located messages printed, model says %d' % (len(blocks), len(msgs)))
+        else:
+            for j, (mm, bl) in enumerate(zip(msgs, blocks)):
+                _, w, label, what, hlp, rd = mm
+                if rd[0] != 'ok':
+                    problems.append('message %d: model render gives %s' % (j, sexp.dump(rd)[:100]))
+                    continue
+                header, no, line, cs, ce = str(rd[1]), int(rd[2]), str(rd[3]), int(rd[4]), int(rd[5])
+                want = dict(header=header, warning=(w == 'w'), label=str(label), no=no, what=str(what),
+                            help=(None if hlp == '-' else str(hlp)))
+                got = {f: bl[f] for f in want}
+                if got != want:
+                    problems.append('message %d: printed %r, model %r' % (j, got, want))
+                plain = all(32 <= ord(ch) < 127 for ch in line)
+                if plain and (bl['src'].rstrip(' ') != line.rstrip(' ')):
+                    problems.append('message %d: quoted line %r, model %r' % (j, bl['src'], line))
+                if plain and (bl['start'], bl['width']) != (cs, ce - cs):
+                    problems.append('message %d: underline at %d+%d, model %d+%d' % (j, bl['start'], bl['width'], cs, ce - cs))
+        if problems:
+            res.violations.append(report.Violation(
+                'tie broken at stage diag (Model/Diag.v vs the messages the binary prints): ' + '; '.join(problems[:3]),
+                dict(kind='tie-diag', grammar=m['text'].decode('latin-1'), shell=m['shell'], request=rq[:3000],
+                     model=o[:3000], stderr=bins[k]['stderr'][:3000].decode('latin-1'), problems=problems),
+                found_input=False))
+        else:
+            tied += 1
+    res.extra['diag_render_tied'] = tied
+    res.extra['diag_render_requests'] = len(reqs)
 
 
 def _offset(text, pos):
